@@ -5,6 +5,7 @@ import SpVerif.Ops.PusTc
 import SpVerif.Ops.PusTm
 import SpVerif.Ops.Srv1
 import SpVerif.Ops.SeqCount
+import SpVerif.Ops.Cds
 /-!
 # Line-protocol driver: one JSON object per input line (`{"op": …, …}`), one JSON result per output line.
 `{"ok": …}` / `{"err": "<category>"}` are model results; `{"bad": "<msg>"}` is a protocol error.
@@ -19,6 +20,7 @@ def allOps : List (String × Handler) := []
   ++ Ops.PusTm.ops
   ++ Ops.Srv1.ops
   ++ Ops.SeqCount.ops
+  ++ Ops.Cds.ops
 
 def table : Std.HashMap String Handler := Std.HashMap.ofList allOps
 
